@@ -163,3 +163,26 @@ register(
     ],
     probes=["n%k=0", "n%k=1", "n%k>=2", "strategy_gain", "strategy_distance", "balanced_predict_m<k", "balanced_predict_m%k>=2"],
 )
+
+register(
+    "C04",
+    quick=3000,
+    thorough=150000,
+    level="exploration",
+    rule=(
+        "one run = one fitted estimator with row-wise semantics from the registry (balanced prediction of the "
+        "size-constrained k-means is never generated: documented exception) and a batch made of training rows, new "
+        "rows and far-away rows (unseen buckets / leaves); reference model = row id -> row of the first full-batch "
+        "output per method; 4..14 operations: sub-batch, permutation, single row, duplicated rows, repeat, pickle "
+        "round trip (restart from durable state), clone_with_fitted_parameters, set n_jobs (calls then run under a "
+        "drawn thread schedule); every output row must equal the reference (exact for labels / leaf ids, rtol 1e-9 "
+        "otherwise); non-trivial = every run with a successful fit; distinct = distinct (class, config, operation "
+        "sequence digest via schedule digest)"
+    ),
+    assumptions=[
+        "a method whose reference full-batch call raises is dropped for the scenario and counted (C04 promises batch independence, not that every method exists)",
+        "batch-vs-row floating point differences up to rtol 1e-9 / atol 1e-12 are accepted for BLAS-backed outputs",
+        "peers stand for inner estimators; they pickle by reference to dsim.peers",
+    ],
+    probes=["row_in_unseen_bucket", "single_row_batch", "restart_pickle", "restart_cwfp", "schedule_switch_inside_predict"],
+)
